@@ -29,7 +29,7 @@ Result == Run(par, a, b, Mode)
 Shape ==
     LET R == Result
         p == Codes(Len(a), Len(b), R.cells)
-    IN /\ WellFormed(Len(a), Len(b), R.cells)
+    IN /\ WellFormedCells(Len(a), Len(b), R.cells)
        /\ \A k \in 1..Len(R.splits) : R.splits[k].tr \in Trans /\ Allowed(<<R.splits[k].sa, R.splits[k].ea, R.splits[k].sb, R.splits[k].eb>>, R.splits[k].meet, R.splits[k].tr)
        /\ S!ValidAln(a, b, p)
        /\ S!Allowed(p)
